@@ -485,3 +485,15 @@ pub fn eq_inspect_b(r: Result<f64, String>, log: &mut Vec<String>) -> Result<f64
     let v = r.inspect_err(|e| log.push(e.clone()))?;
     Ok(v * 2.0)
 }
+
+// zip with an unbounded counter vs enumerate
+pub fn eq_rangefrom_a(seed: u64, xs: &mut [u64]) {
+    for (i, x) in xs.iter_mut().enumerate() {
+        *x = seed.wrapping_add(i as u64);
+    }
+}
+pub fn eq_rangefrom_b(seed: u64, xs: &mut [u64]) {
+    for (i, x) in std::iter::zip(0u64.., xs.iter_mut()) {
+        *x = seed.wrapping_add(i);
+    }
+}
